@@ -8,13 +8,16 @@ Import ListNotations.
 Require Import Verif.lib.PyLite Verif.lib.Utf8 Verif.gen.FailureGen Verif.lib.Failure Verif.lib.FailureProofs.
 Require Import Verif.gen.SendGen Verif.lib.Send Verif.lib.SendProofs.
 Require Import Verif.gen.BananaGen Verif.lib.SendRecv Verif.lib.SendRecvProofs Verif.lib.Relay Verif.lib.RelayProofs.
+Require Import Verif.gen.CalleeGen Verif.lib.Callee Verif.lib.CalleeProofs.
 Require Verif.lib.Recv Verif.lib.BananaRecv.
 Module BR := Verif.lib.BananaRecv.
 Local Open Scope Z_scope.
 
 (* "an exception raised by the method (any type, any message text) ... fails exactly that call ... carries a prefix of
    its message ... never mistaken for a local schema problem":
-   [T truncate, limits; C get_state byte for byte]  for EVERY exception raised on the callee (FailureSlicer; a CopiedFailure that a
+   [T get_state = get_state_src, FailureSlicer.getStateToCopy executed symbolically statement by statement (gen/FailureGen.v: the order of
+   rendering, truncations, elision, the unsafeTracebacks branch, the parents loop), on the translated truncate and the limits read at the
+   call sites; C byte for byte against the real FailureSlicer]  for EVERY exception raised on the callee (FailureSlicer; a CopiedFailure that a
    middle party sends on goes through CopiedFailureSlicer instead: C10_relay_end_to_end) -- any class name, any message text (including text that UTF-8 cannot encode, which is escaped
    \udXXX), a __str__ that raises (reflect.safe_str's text is used), any traceback text, any ancestry -- with or without
    unsafe tracebacks, getStateToCopy returns (it cannot raise inside the slicer); every field it sends satisfies the byte
@@ -253,9 +256,20 @@ Print Assumptions C10_report_end_to_end.
    dropped the connection: its nesting is the sender's slicer stack depth, its objectCounter advanced by the sender's
    openCount advance, and whenever the sender is back at its RootSlicer the receiver is back at top level (discardCount 0,
    only the root unslicer, no index phase).
-   _partial: the hypothesis `received .. = Ok' ..` (no BananaError / lost sync on the receiving side) is not discharged for
-   BananaRecv; that the sender's stream never loses sync is proved for the number-checking receiver
-   (C10_send_abort_wellformed) and compared token by token with the real Banana.handleData by the correspondence. *)
+   _partial: the hypothesis `received .. = Ok' ..` (the receiving Banana did not drop the connection) is NOT discharged.  It cannot
+   be dropped outright: BananaRecv ends the connection (Fatal') in these cases, and the first four depend on the CONTENT of the
+   primitive tokens and on the receiving policy, which `pay` / `mode` / `voc` leave arbitrary -- they are the receiver's own
+   BananaErrors, not framing faults: (1) checkToken of a kind-B policy unslicer raises BananaError for whatever it is offered
+   (incl. OPEN); (2) a VOCAB token whose index is not in the table (KeyError); (3) a LIST / ERROR / invalid type byte as payload;
+   (4) an index token that is not ASCII (the model abstains); and the three framing cases (5) CLOSE whose number differs from
+   the top unslicer's openCount ("lost sync"), (6) CLOSE with only the root on the stack, (7) OPEN while the index phase of the
+   previous OPEN is still running.  For (5)-(7) what is missing is an invariant proof over tok_apply: "the f_open numbers of the
+   unslicers above the root are the sender's stack below its top (discardCount + pending index phase) entries, and inboundOpenCount
+   is the number of the pending OPEN", together with two hypotheses that the event language of lib/Send.v does not carry: every
+   EPush is followed by at least one primitive token before the next EPush / EEnd (every real Slicer yields its opentype first),
+   and that token completes the opentype for the receiver (no OWait).  The same facts ARE established for the number-checking
+   receiver of lib/Send.v (C10_send_abort_wellformed: never out of sync, for every event list) and compared token by token with
+   the real Banana.handleData by the correspondence. *)
 Theorem C10_real_receiver_in_step_partial : forall c evs mode voc pay c' es,
   (forall z, is_payload (pay z) = true) ->
   let s := run (init c) evs in
@@ -299,3 +313,55 @@ Print Assumptions C10_relay_end_to_end.
 Theorem C10_relay_dotless_refuted : exists s, failure_constraint_ok s = true /\ failure_constraint_ok (relay_state true s) = false.
 Proof. exact relay_dotless_refuted. Qed.
 Print Assumptions C10_relay_dotless_refuted.
+
+(* "A problem that belongs to a single call ... fails exactly that call", the CALLEE's side: from the moment the request id of an
+   inbound `call` is known to the `answer` / `error` handed to Broker.send.  [T Broker.callFailed, Broker._callFinished, the Deferred
+   chain of Broker.doNextCall and CallUnslicer.reportViolation are translated statement by statement (gen/CalleeGen.v) and
+   interpreted by lib/Callee.v; C: the interpreted programs against the instrumented callee Broker of every batch]
+   For EVERY history of inbound calls with distinct request ids -- rejected by the CallUnslicer (unknown object, unknown method,
+   argument the schema rejects, the caller's ABORT) or delivered; arguments ready or not (gifts); the method returning, raising
+   anything, or not existing; the result accepted or not by the callee's schema; the answer serializable or not; any exception
+   (FailureSlicer is total: C10_failure_fits); any logging setting -- every call gets exactly the replies the property promises:
+   one `answer` or `error`, none for a call the caller itself aborted; nothing is swallowed; the connection stays up.
+   inbound_ok excludes exactly two things, both shown below to break the statement on the faithful model: a non-Violation
+   exception while the answer is serialized (C10_crash_drops_connection's case), and the local-failure log being on while
+   the target / arguments cannot be formatted (C10_unrenderable_delivery_refuted: a finding). *)
+Theorem C10_every_call_answered_once : forall ins s, cup s = true -> Forall inbound_ok ins -> NoDup (map reqid_of ins) ->
+  let s' := handle_all ins s in
+  cup s' = true /\ swallowed s' = swallowed s /\
+  (forall i, In i ins -> replies (reqid_of i) (sent s') = (replies (reqid_of i) (sent s) + expected_replies i)%nat) /\
+  (forall r, ~ In r (map reqid_of ins) -> replies r (sent s') = replies r (sent s)).
+Proof. exact every_call_answered_once. Qed.
+Print Assumptions C10_every_call_answered_once.
+
+(* one delivery, with everything it leaves behind: one message for its request id, its activeLocalCalls entry gone *)
+Theorem C10_delivery_answered_once : forall e s, cup s = true -> d_reqid e <> 0 -> d_answer e <> SCrash ->
+  (d_log_local e = false \/ d_repr_raises e = false) ->
+  outcome_ok (d_reqid e) 1 (active s) s (handle (InDelivered e) s).
+Proof. exact delivery_answered_once. Qed.
+Print Assumptions C10_delivery_answered_once.
+
+(* a call rejected while it is received: one `error` (no condition at all: callFailed gets no delivery, nothing is formatted);
+   none if it was the caller's ABORT -- and then the activeLocalCalls entry stays (observed on the real Broker too) *)
+Theorem C10_rejected_answered_once : forall abort e s, cup s = true -> d_reqid e <> 0 ->
+  outcome_ok (d_reqid e) (expected_replies (InRejected abort e)) (if abort then d_reqid e :: active s else active s)
+             s (handle (InRejected abort e) s).
+Proof. exact rejected_answered_once. Qed.
+Print Assumptions C10_rejected_answered_once.
+
+(* FINDING (replayed on the real Broker: signature oracle/call-not-failed/local-failure-log-renders-target): with the
+   local-failure log on (Tub option logLocalFailures, or a Broker without Tub) a failing call on a target -- or with arguments --
+   whose "%s" formatting raises is never answered: logFailure raises inside callFailed before the error is sent, the chain's
+   log.err swallows it, the caller's Deferred never fires and the activeLocalCalls entry stays *)
+Theorem C10_unrenderable_delivery_refuted : exists e s, cup s = true /\ d_reqid e <> 0 /\ d_answer e = SOk /\
+  let s' := handle (InDelivered e) s in
+  sent s' = sent s /\ active s' = d_reqid e :: active s /\ swallowed s' = S (swallowed s) /\ cup s' = true.
+Proof. exact unrenderable_delivery_refuted. Qed.
+Print Assumptions C10_unrenderable_delivery_refuted.
+
+(* the other excluded case: a non-Violation exception while the answer is serialized drops the connection (known finding) *)
+Theorem C10_answer_crash_drops_connection : forall e s, cup s = true -> d_ready e = true -> d_raises e = false ->
+  (d_schema e = false \/ d_result_ok e = true) -> d_reqid e <> 0 -> d_answer e = SCrash ->
+  cup (handle (InDelivered e) s) = false.
+Proof. exact answer_crash_drops_connection. Qed.
+Print Assumptions C10_answer_crash_drops_connection.
